@@ -1,0 +1,220 @@
+//go:build verif
+
+// Contracts for the wire-format field codecs (msg_helpers.go, msg.go).
+// Comment-only file read by /verif/govc; it contributes no code.
+
+package dns
+
+//@ func unpackUint8 [C01 C02]
+//@   requires 0 <= off
+//@   ensures ok:   err == nil ==> off1 == off + 1 && off1 <= len(msg)
+//@   ensures fail: err != nil ==> off1 == len(msg)
+//@   ensures val:  err == nil ==> i == msg[off]
+
+//@ func unpackUint16 [C01 C02]
+//@   requires 0 <= off
+//@   ensures ok:   err == nil ==> off1 == off + 2 && off1 <= len(msg)
+//@   ensures fail: err != nil ==> off1 == len(msg)
+//@   ensures val:  err == nil ==> i == msg[off]*256 + msg[off+1]
+
+//@ func unpackUint32 [C01 C02]
+//@   requires 0 <= off
+//@   ensures ok:   err == nil ==> off1 == off + 4 && off1 <= len(msg)
+//@   ensures fail: err != nil ==> off1 == len(msg)
+//@   ensures val:  err == nil ==> i == msg[off]*16777216 + msg[off+1]*65536 + msg[off+2]*256 + msg[off+3]
+
+//@ func unpackUint48 [C01 C02]
+//@   requires 0 <= off
+//@   ensures ok:   err == nil ==> off1 == off + 6 && off1 <= len(msg)
+//@   ensures fail: err != nil ==> off1 == len(msg)
+//@   ensures val:  err == nil ==> i == msg[off]*1099511627776 + msg[off+1]*4294967296 + msg[off+2]*16777216 + msg[off+3]*65536 + msg[off+4]*256 + msg[off+5]
+
+//@ func unpackUint64 [C01 C02]
+//@   requires 0 <= off
+//@   ensures ok:   err == nil ==> off1 == off + 8 && off1 <= len(msg)
+//@   ensures fail: err != nil ==> off1 == len(msg)
+
+//@ func cloneSlice [C02 C16]
+//@   ensures len(ret0) == len(s) && (s == nil ==> ret0 == nil)
+//@   ensures fresh: fresh(ret0)
+
+//@ func unpackDataA [C01 C02 C16]
+//@   requires 0 <= off
+//@   ensures ok:   ret2 == nil ==> ret1 == off + 4 && ret1 <= len(msg) && len(ret0) == 4
+//@   ensures fail: ret2 != nil ==> ret1 == len(msg)
+//@   ensures fresh: fresh(ret0)
+
+//@ func unpackDataAAAA [C01 C02 C16]
+//@   requires 0 <= off
+//@   ensures ok:   ret2 == nil ==> ret1 == off + 16 && ret1 <= len(msg) && len(ret0) == 16
+//@   ensures fail: ret2 != nil ==> ret1 == len(msg)
+//@   ensures fresh: fresh(ret0)
+
+//@ func truncateMsgFromRdlength [C01 C02]
+//@   requires 0 <= off
+//@   ensures err == nil ==> len(truncmsg) == off + rdlength && ref(truncmsg) == ref(msg) && len(truncmsg) <= len(msg)
+//@   ensures err != nil ==> len(truncmsg) == len(msg)
+
+//@ func unpackHeader [C01 C02]
+//@   requires 0 <= off
+//@   ensures ok:   err == nil ==> off <= off1 && off1 <= len(truncmsg) && len(truncmsg) <= len(msg)
+//@   ensures rdl:  err == nil && off < len(msg) ==> len(truncmsg) == off1 + rr.Rdlength
+//@   ensures fail: err != nil ==> len(truncmsg) == len(msg)
+
+//@ func escapeByte [C02 C03 C05]
+//@   requires b < 32 || b > 126
+//@   ensures 1 <= len(ret0) && len(ret0) <= 4
+
+//@ func isDomainNameLabelSpecial [C02 C03]
+
+//@ func UnpackDomainName [C02 C03]
+//@   requires 0 <= off
+//@   ensures ok:   ret2 == nil ==> off < ret1 && ret1 <= len(msg)
+//@   ensures fail: ret2 != nil ==> ret1 == len(msg)
+//@   loop 1 invariant lenmsg == len(msg) && 0 <= off && 0 <= ptr && ptr <= maxCompressionPointers
+//@   loop 1 invariant 0 < budget && budget <= 255
+//@   loop 1 invariant ptr == 0 ==> old(off) <= off
+//@   loop 1 invariant ptr == 0 && old(off) == off ==> budget == 255
+//@   loop 1 invariant ptr > 0 ==> old(off) < off1 && off1 <= lenmsg
+//@   loop 1 decreases maxCompressionPointers - ptr
+//@   loop 1 decreases lenmsg - off
+
+//@ func unpackString [C01 C02]
+//@   requires 0 <= off
+//@   ensures ok:   ret2 == nil ==> off < ret1 && ret1 <= len(msg) && ret1 == off + 1 + msg[off]
+//@   ensures fail: ret2 != nil ==> off <= ret1
+//@   loop 1 invariant 0 <= consumed && consumed <= rangeindex + 1 && consumed <= l
+
+//@ func unpackTxt [C01 C02]
+//@   requires 0 <= off0
+//@   ensures ok:   err == nil ==> off0 <= off && (off0 <= len(msg) ==> off <= len(msg))
+//@   ensures fail: err != nil ==> off0 <= off
+//@   loop 1 invariant off0 <= off && (err == nil && off0 <= len(msg) ==> off <= len(msg))
+//@   loop 1 decreases err == nil ? 1 : 0
+//@   loop 1 decreases len(msg) - off
+
+//@ func unpackStringTxt [C01 C02]
+//@   requires 0 <= off
+//@   ensures ok:   ret2 == nil ==> off <= ret1 && (off <= len(msg) ==> ret1 <= len(msg))
+//@   ensures fail: ret2 != nil ==> ret1 == len(msg)
+
+//@ func toBase32 [C02]
+//@ func toBase64 [C02]
+
+//@ func unpackStringBase32 [C01 C02]
+//@   requires 0 <= off && off <= end
+//@   ensures ok:   ret2 == nil ==> ret1 == end && end <= len(msg)
+//@   ensures fail: ret2 != nil ==> ret1 == len(msg)
+
+//@ func unpackStringBase64 [C01 C02]
+//@   requires 0 <= off && off <= end
+//@   ensures ok:   ret2 == nil ==> ret1 == end && end <= len(msg)
+//@   ensures fail: ret2 != nil ==> ret1 == len(msg)
+
+//@ func unpackStringHex [C01 C02]
+//@   requires 0 <= off && off <= end
+//@   ensures ok:   ret2 == nil ==> ret1 == end && end <= len(msg)
+//@   ensures fail: ret2 != nil ==> ret1 == len(msg)
+
+//@ func unpackStringAny [C01 C02]
+//@   requires 0 <= off && off <= end
+//@   ensures ok:   ret2 == nil ==> ret1 == end && end <= len(msg)
+//@   ensures fail: ret2 != nil ==> ret1 == len(msg)
+
+//@ func unpackStringOctet [C01 C02]
+//@   requires 0 <= off && off <= len(msg)
+//@   ensures ret2 == nil && ret1 == len(msg)
+
+//@ func unpackDataNsec [C01 C02]
+//@   requires 0 <= off
+//@   ensures ok:   ret2 == nil ==> off <= ret1 && (off <= len(msg) ==> ret1 <= len(msg))
+//@   ensures fail: ret2 != nil ==> ret1 == len(msg)
+//@   loop 1 invariant old(off) <= off && (old(off) <= len(msg) ==> off <= len(msg))
+//@   loop 1 decreases len(msg) - off
+
+//@ func unpackDataDomainNames [C01 C02]
+//@   requires 0 <= off
+//@   ensures ok:   ret2 == nil ==> off <= ret1 && (off <= len(msg) ==> ret1 <= len(msg))
+//@   ensures fail: ret2 != nil ==> ret1 == len(msg)
+//@   loop 1 invariant old(off) <= off && end <= len(msg) && (old(off) <= len(msg) ==> off <= len(msg))
+//@   loop 1 decreases len(msg) - off
+
+//@ func unpackIPSECGateway [C01 C02]
+//@   requires 0 <= off
+//@   ensures ok:   ret3 == nil ==> off <= ret2 && (off <= len(msg) ==> ret2 <= len(msg))
+//@   ensures fail: ret3 != nil ==> ret2 == len(msg)
+
+//@ func unpackDataAplPrefix [C01 C02]
+//@   requires 0 <= off
+//@   ensures ok:   ret2 == nil ==> off < ret1 && ret1 <= len(msg)
+//@   ensures fail: ret2 != nil ==> ret1 == len(msg)
+
+//@ func unpackDataApl [C01 C02]
+//@   requires 0 <= off
+//@   ensures ok:   ret2 == nil ==> off <= ret1 && (off <= len(msg) ==> ret1 <= len(msg))
+//@   ensures fail: ret2 != nil ==> ret1 == len(msg)
+//@   loop 1 invariant old(off) <= off && (old(off) <= len(msg) ==> off <= len(msg))
+//@   loop 1 decreases len(msg) - off
+
+//@ iface RR.unpack [C01 C02]
+//@   requires 0 <= off && off <= len(msg)
+//@   requires rdl: len(msg) == off + hdr(recv).Rdlength
+//@   ensures ge: off <= ret0
+
+//@ iface EDNS0.unpack [C01 C02]
+//@ iface SVCBKeyValue.unpack [C01 C02]
+
+//@ func makeDataOpt [C01 C02]
+//@   ensures ret0 != nil
+//@ func makeSVCBKeyValue [C01 C02]
+
+//@ func unpackDataOpt [C01 C02]
+//@   requires 0 <= off
+//@   ensures ok:   ret2 == nil ==> off <= ret1 && (off <= len(msg) ==> ret1 <= len(msg))
+//@   ensures fail: ret2 != nil ==> ret1 == len(msg)
+//@   loop 1 invariant old(off) <= off && (old(off) <= len(msg) ==> off <= len(msg))
+//@   loop 1 decreases len(msg) - off
+
+//@ func unpackDataSVCB [C01 C02]
+//@   requires 0 <= off
+//@   ensures ok:   ret2 == nil ==> off <= ret1 && (off <= len(msg) ==> ret1 <= len(msg))
+//@   ensures fail: ret2 != nil ==> ret1 == len(msg)
+//@   loop 1 invariant old(off) <= off && (old(off) <= len(msg) ==> off <= len(msg))
+//@   loop 1 decreases len(msg) - off
+
+//@ func noRdata [C01 C02]
+//@   ensures ret0 == (h.Rdlength == 0)
+
+//@ func UnpackRRWithHeader [C01 C02]
+//@   assume at "*rr.Header() = h" rr != nil
+//@   ensures in:   err == nil ==> 0 <= off && off <= off1 && off1 <= len(msg) && off1 == off + h.Rdlength
+//@   ensures some: err == nil ==> rr != nil
+
+//@ func UnpackRR [C01 C02]
+//@   requires 0 <= off
+//@   ensures ok:   err == nil ==> off <= off1 && off1 <= len(msg)
+
+//@ func unpackRRslice [C01 C02]
+//@   requires 0 <= off
+//@   ensures ok:   err == nil ==> off <= off1 && (off <= len(msg) ==> off1 <= len(msg))
+//@   ensures fail: err != nil ==> off1 == len(msg)
+//@   loop 1 invariant 0 <= i && old(off) <= off && (old(off) <= len(msg) ==> off <= len(msg)) && err == nil
+//@   loop 1 decreases len(msg) - off
+//@   opt alloc-bound = 1
+
+//@ func unpackQuestion [C01 C02]
+//@   requires 0 <= off
+//@   ensures ok:   ret2 == nil ==> off < ret1 && ret1 <= len(msg)
+
+//@ func unpackMsgHdr [C01 C02]
+//@   requires 0 <= off
+//@   ensures ok:   ret2 == nil ==> ret1 == off + 12 && ret1 <= len(msg)
+
+//@ func (*Msg).setHdr [C01 C02 C14]
+
+//@ func (*Msg).unpack [C01 C02]
+//@   requires 0 <= off
+//@   loop 1 invariant 0 <= i && old(off) <= off
+//@   loop 1 decreases len(msg) - off
+
+//@ func (*Msg).Unpack [C01 C02]
